@@ -2035,6 +2035,31 @@ fn c18_write_during_transaction(rt: &FfiRuntime) -> Stats {
     st
 }
 
+/// bind addresses through the C ABI: whatever address the Rust API can bind, the C-ABI constructor
+/// given the same address as text can bind too (IPv4 and IPv6, loopback and unspecified)
+fn c18_bind_addresses(rt: &FfiRuntime) -> Stats {
+    let mut st = Stats::default();
+    for ip in ["127.0.0.1", "[::1]", "0.0.0.0", "[::]"] {
+        let rust_ok = std::net::TcpListener::bind(format!("{ip}:0")).is_ok();
+        st.evaluations += 1;
+        st.class("config:bind-address");
+        if !rust_ok {
+            st.class("config:bind-address-unavailable-here");
+            continue;
+        }
+        let r = ffi_server(rt, Variant::Tcp, &FilterSpec::Any, ip, ten_registers(), Arc::new(Mutex::new(WriteState::default())), [true; 4]);
+        st.observe(&(ip, r.is_ok()));
+        if let Err(e) = r {
+            st.violation(Violation {
+                signature: "bind-address-not-forwarded".into(),
+                summary: format!("rodbus_server_create_tcp with the address {ip}: {e}; the Rust API binds that address"),
+                replay: json!({"kind": "c18-server"}),
+            });
+        }
+    }
+    st
+}
+
 fn c18_client_part(rt: &FfiRuntime, thorough: bool) -> Stats {
     let mut st = Stats::default();
     let mut cases: Vec<(Op, PeerBehaviour, u8, u64)> = vec![];
@@ -3174,7 +3199,16 @@ pub fn check_c18(tier: &str) -> i32 {
         let rt = FfiRuntime::new(4);
         let a = c18_client_part(&rt, thorough);
         let mut b = c18_server_part(&rt, thorough);
-        let extra = c18_write_during_transaction(&rt);
+        let mut extra = c18_write_during_transaction(&rt);
+        let binds = c18_bind_addresses(&rt);
+        extra.evaluations += binds.evaluations;
+        for (k, n) in binds.classes {
+            *extra.classes.entry(k).or_insert(0) += n;
+        }
+        extra.distinct.extend(binds.distinct);
+        for v in binds.violations {
+            extra.violation(v);
+        }
         b.evaluations += extra.evaluations;
         for (k, n) in extra.classes {
             *b.classes.entry(k).or_insert(0) += n;
@@ -3229,6 +3263,7 @@ pub fn replay_c18(v: &serde_json::Value) -> Vec<(String, String)> {
             Some("c18-server") => {
                 let mut v: Vec<(String, String)> = c18_server_part(&rt, false).violations.into_iter().map(|x| (x.signature, x.summary)).collect();
                 v.extend(c18_write_during_transaction(&rt).violations.into_iter().map(|x| (x.signature, x.summary)));
+                v.extend(c18_bind_addresses(&rt).violations.into_iter().map(|x| (x.signature, x.summary)));
                 v
             }
             Some("c18-call-errors") => {
